@@ -91,7 +91,14 @@ where
     let mut len = 0;
 
     loop {
-        let src = reader.fill_buf()?;
+        // A spurious interrupt is not an error: retry, as `BufRead::read_until` does.
+        let src = loop {
+            match reader.fill_buf() {
+                Ok(src) => break src,
+                Err(e) if e.kind() == io::ErrorKind::Interrupted => continue,
+                Err(e) => return Err(e),
+            }
+        };
 
         if r#match.is_some() || src.is_empty() {
             break;
